@@ -151,7 +151,16 @@ func isLowerCamelLetters(s string) bool {
 // strcaseStream appends n strcase cases to cf/res; shared by the pseudo-property and C17.
 func strcaseStream(cfg *vh.Config, r *vh.Rand, res *vh.Result, n int, caseNo *int, distinct vh.Distinct) []string {
 	var terms []string
-	fixed := []string{"", "Foo", "foo", "FooS", "FooSState", "FooBar", "fooBar", "foo_bar", "FOO_BAR", "JSONData", "userID", "ID", "a1", "A1", "1a", "v2Thing", " Foo ", " Foo\u3000", "\xc2Foo\x85", "Foo\xc2", "\u2003Foo\u00a0\u0085", "foo.bar-baz qux", "__foo__", "fooBAR", "FOOBar", "aB", "AB", "ABc", "aBC", "x_1", "x1Y", "\u00c9", "\u65e5\u672c\u8a9eFoo", "\xe2\x80\x80\x80", "x\xe2\x80", "\x80\x80\xe2\x80\x80"}
+	fixed := []string{"", "Foo", "foo", "FooS", "FooSState", "FooBar", "fooBar", "foo_bar", "FOO_BAR", "JSONData", "userID", "ID", "a1", "A1", "1a", "v2Thing", " Foo ", " Foo\u3000", "\xc2Foo\x85", "Foo\xc2", "\u2003Foo\u00a0\u0085", "foo.bar-baz qux", "__foo__", "fooBAR", "FOOBar", "aB", "AB", "ABc", "aBC", "x_1", "x1Y", "\u00c9", "\u65e5\u672c\u8a9eFoo", "\xe2\x80\x80\x80", "x\xe2\x80", "\x80\x80\xe2\x80\x80",
+		// adversarial identifiers of the class the j5s lexer accepts as a name (unicode letter, then letters /
+		// digits / '_'): digits inside and at the ends of words, acronym runs, trailing / doubled / leading
+		// underscores, non-ASCII letters (the library classifies bytes, so they are caseless), non-ASCII digits
+		"HTTPServer", "userIDs", "X9Y", "x9", "foo2bar", "foo2Bar", "Foo2", "a1B2c3", "A1B2", "v2", "V2X", "IPv6", "OAuth2Token",
+		"getHTTPSUrl", "HTTPSUrl2", "foo_", "foo__", "Foo_Bar_", "Z_", "a_", "a_b_c", "A_B_C", "_foo", "_Foo", "__", "_", "foo_1", "foo_1_bar",
+		"foo1_bar", "1", "12ab", "ab12", "aB1C", "AbC1d", "S3Bucket", "s3Bucket", "md5Sum", "MD5sum", "i18n", "I18N", "x_X", "X_x", "aA", "Aa", "aAa", "AaA",
+		"\u00c9lan", "\u00e9lan", "na\u00efve", "Stra\u00dfe", "stra\u00dfeName", "\u65e5\u672c", "x\u65e5\u672cY", "\u03a9mega", "\u03c9Mega", "\u01c5x", "\u0131d", "\u0130D",
+		"foo\u0663", "a\u0663B", "Foo\u00c9Bar", "foo_\u00e9_bar", "\u00e9_", "\u00c9X", "x\u00c9", "FOO\u00c9", "page", "Page", "PAGE", "pAge", "query", "Query", "upsert", "Upsert", "type", "Type", "TYPE",
+		"events", "Events", "eVents", "EventS", "page_", "Page2", "type_", "tYpe"}
 	for i := 0; i < n; i++ {
 		var kind, s string
 		if i < len(fixed) {
